@@ -418,19 +418,34 @@ def kill_shim():
     return _SHIM[root]
 
 
-def run_child(kind, path, watch_dir, kill_at=0, log=None):
+WRITER = r"""
+import sys, sqlite3
+db = sqlite3.connect(sys.argv[3])
+db.execute("PRAGMA cache_size=2")        # pages spill into the main file during the transaction
+n = int(sys.argv[2])
+for i in range(n):
+    db.execute("INSERT INTO nameplates (app_id, started, waiting_time, total_time, result) VALUES (?,?,?,?,?)",
+               ("late-%d" % i, i, None, i * 2, "happy" + "y" * 200))
+    db.execute("INSERT INTO mailboxes (app_id, for_nameplate, started, total_time, waiting_time, result)"
+               " VALUES (?,?,?,?,?,?)", ("late-%d" % i, 1, i, i, None, "lonely" + "z" * 200))
+db.commit()
+db.close()
+"""
+
+
+def run_child(kind, path, watch_dir, kill_at=0, log=None, script=None):
     env = dict(os.environ, LD_PRELOAD=kill_shim(), MWSIM_KILL_DIR=watch_dir, MWSIM_KILL_AT=str(kill_at),
                PYTHONHASHSEED="0")
     if log:
         env["MWSIM_KILL_LOG"] = log
     else:
         env.pop("MWSIM_KILL_LOG", None)
-    r = subprocess.run([sys.executable, "-c", CHILD, os.path.join(seams.REPO, "src"), kind, path],
+    r = subprocess.run([sys.executable, "-c", script or CHILD, os.path.join(seams.REPO, "src"), kind, path],
                        env=env, capture_output=True, timeout=120)
     return r.returncode, r.stderr.decode("utf-8", "replace")[-300:]
 
 
-def syscall_kill_points(kind, make_dir, judge, threads=8):
+def syscall_kill_points(kind, make_dir, judge, threads=8, script=None):
     """Kill a real server start-up process right before each of its file-system
     operations (LD_PRELOAD shim), in turn.  make_dir(tag) -> (dir, dbpath) prepares
     the scenario; judge(dir, label) checks what the kill left behind.
@@ -440,7 +455,7 @@ def syscall_kill_points(kind, make_dir, judge, threads=8):
     d, p = make_dir("rec")
     log = d + ".oplog"
     try:
-        rc, err = run_child(kind, p, d, 0, log)
+        rc, err = run_child(kind, p, d, 0, log, script=script)
         if rc != 0:
             return 0, "child failed without fault: %s" % err
         ops = [l.split(" ", 2)[1] for l in open(log).read().splitlines() if l.strip()]
@@ -450,17 +465,28 @@ def syscall_kill_points(kind, make_dir, judge, threads=8):
             os.remove(log)
 
     def one(k):
+        # phase 1 (parallel): only the child process; judging happens afterwards, in order,
+        # in the calling thread, so that the verdict list is deterministic
         dd, pp = make_dir("k%d" % k)
         try:
-            rc, err = run_child(kind, pp, dd, k)
-            if rc != 137:
-                return k, "kill point %d (%s): child ended with status %s instead of being killed: %s" % (k, ops[k - 1], rc, err)
-            return k, judge(dd, "kill -9 right before file-system operation %d of %d (%s)" % (k, len(ops), ops[k - 1]))
-        finally:
-            shutil.rmtree(dd, ignore_errors=True)
+            rc, err = run_child(kind, pp, dd, k, script=script)
+        except Exception as e:
+            rc, err = -1, repr(e)
+        return k, dd, rc, err
     from concurrent.futures import ThreadPoolExecutor
     with ThreadPoolExecutor(max_workers=threads) as ex:
-        results = list(ex.map(one, range(1, len(ops) + 1)))
+        ran = list(ex.map(one, range(1, len(ops) + 1)))
+    results = []
+    for (k, dd, rc, err) in ran:
+        try:
+            if rc != 137:
+                results.append((k, "kill point %d (%s): child ended with status %s instead of being killed: %s"
+                                % (k, ops[k - 1], rc, err)))
+            else:
+                results.append((k, judge(dd, "kill -9 right before file-system operation %d of %d (%s)"
+                                         % (k, len(ops), ops[k - 1]))))
+        finally:
+            shutil.rmtree(dd, ignore_errors=True)
     problems = [(k, r) for (k, r) in results if r]
     return len(ops), (ops, problems)
 
@@ -507,6 +533,7 @@ class DbEngine(Engine):
     def extra_evidence(self, agg):
         e = agg["extra"]
         return {"syscall_level_kill_points_of_a_real_process": e.get("syscall_kill_points", 0),
+                "v1_databases_left_by_a_killed_writer": e.get("hot_journal_preconditions", 0),
                 "fault_points_enumerated": e.get("points", 0), "crash_images_checked": e.get("images", 0),
                 "errors_injected": e.get("injections", 0), "rejection_cases": e.get("rejections", 0),
                 "components": {"real": ["database.py (all of it)", ".sql schema and upgrade scripts", "SQLite on real files"],
@@ -604,7 +631,7 @@ class C19Engine(DbEngine):
         # 3. pre-existing contents
         inputs = []
         if not viol:
-            for case in ("rows", "empty", "random", "truncated", "newer", "create-only", "open-only", "odd-path"):
+            for case in ("rows", "empty", "random", "truncated", "newer", "create-only", "open-only", "odd-path", "siblings"):
                 d = self.workdir("pre")
                 p = os.path.join(d, "db.sqlite")
                 try:
@@ -713,6 +740,33 @@ class C19Engine(DbEngine):
                             else:
                                 os.environ["HOME"] = home
                         inputs.append(("odd-path", 3))
+                    elif case == "siblings":
+                        # other files next to the database path: the companion database of the other
+                        # kind under a related name, an operator's copy, a stale journal of something else
+                        sib = {}
+                        other = "usage" if kind == "channel" else "channel"
+                        # (only files the statements protect: the other database of the pair, which the
+                        # same start opens next, and a schema-upgrade backup; stale temporary files of an
+                        # interrupted creation may be cleaned up)
+                        for suffix in (".%s" % other, "-backup-v1"):
+                            sp = p + suffix
+                            if suffix == ".%s" % other:
+                                close_quiet(TARGETS[other][0](sp))
+                                (rand_rows_usage if other == "usage" else rand_rows_channel)(rng, sp)
+                            else:
+                                with open(sp, "wb") as f:
+                                    f.write(bytes(rng.getrandbits(8) for _ in range(rng.choice([0, 10, 5000]))))
+                        before = file_bytes(d)
+                        close_quiet(opener(p))                         # first-time creation among them
+                        after = file_bytes(d)
+                        for fn, data in before.items():
+                            if after.get(fn) != data:
+                                viol.append(self.v("neighbours-untouched",
+                                                   "creating the %s database %r %s the neighbouring file %r"
+                                                   % (kind, os.path.basename(p),
+                                                      "removed" if fn not in after else "modified", fn)))
+                                break
+                        inputs.append(("siblings", len(before)))
                     elif case == "open-only":
                         try:
                             db = database.open_existing_db(p)
@@ -874,6 +928,60 @@ class C20Engine(DbEngine):
                     extra["syscall_skipped"] = 1
                 else:
                     extra["syscall_kill_points"] = n
+                # a version-1 database whose last *writer* was killed inside a transaction (hot journal,
+                # pages partly written): the upgrade must find every committed record
+                if not viol and n:
+                    seed_db2 = os.path.join(scratch_root(), "c20-seedw-%d-%d.sqlite" % (os.getpid(), seed))
+                    with open(seed_db2, "wb") as f:
+                        f.write(old_bytes)
+
+                    def make_dir2(tag):
+                        dd = self.workdir("hot-" + tag)
+                        pp = os.path.join(dd, "usage.sqlite")
+                        shutil.copyfile(seed_db2, pp)
+                        return dd, pp
+
+                    def judge2(dd, label):
+                        pp = os.path.join(dd, "usage.sqlite")
+                        before = len(viol)
+                        where = "version-1 writer killed (%s), then a normal start" % label
+                        db2 = None
+                        try:
+                            db2 = database.create_or_upgrade_usage_db(pp)
+                        except Exception as e:
+                            viol.append(self.v("restart-completes-upgrade", "%s fails: %s: %s" % (where, type(e).__name__, e)))
+                        finally:
+                            close_quiet(db2)
+                        if len(viol) == before:
+                            try:
+                                dump = full_dump(pp)
+                                chk = sqlite3.connect(pp)
+                                ok = chk.execute("PRAGMA integrity_check").fetchall()
+                                chk.close()
+                            except Exception as e:
+                                viol.append(self.v("no-record-lost", "%s: upgraded file unreadable: %r" % (where, e)))
+                                return viol[before]["text"]
+                            if ok != [("ok",)]:
+                                viol.append(self.v("no-record-lost", "%s: integrity_check says %r" % (where, ok[:3])))
+                            for t in v1_tables:
+                                rows = dump.get(t, [])
+                                late = [x for x in rows if "late-" in x]
+                                base = [x for x in rows if "late-" not in x]
+                                if sorted(base) != old_dump[t] or len(late) not in (0, 40 if t in ("nameplates", "mailboxes") else 0):
+                                    viol.append(self.v("no-record-lost",
+                                                       "%s: table %s holds %d old-style rows (the file had %d) and %d rows of "
+                                                       "the interrupted transaction (must be none or all 40)"
+                                                       % (where, t, len(base), len(old_dump[t]), len(late))))
+                                    break
+                            if schema_dump(pp) != ref_schema or version_of(pp) != ref_version:
+                                viol.append(self.v("upgraded-schema-is-current", "%s: schema/version not current" % where))
+                        return viol[before]["text"] if len(viol) > before else None
+                    try:
+                        n2, res2 = syscall_kill_points("40", make_dir2, judge2, threads=4, script=WRITER)
+                    finally:
+                        os.remove(seed_db2)
+                    if n2:
+                        extra["hot_journal_preconditions"] = n2
         finally:
             sim.cleanup()
             shutil.rmtree(d, ignore_errors=True)
